@@ -391,6 +391,40 @@ def first_match_rule(rep, prog, cfg):
             names.update(callee_names(t))
         rep.check(F + "fields_len" in names or F + "fields" in names, rule, cfg + "/is_empty from fields", bs[0].loc(bs[0].span),
                   "Frame::is_empty does not derive from the remaining fields")
+        # ... and it is exactly "no field remains and no blob": decided by evaluating the function under the four assignments of
+        # the two facts (A14) — E: the remaining-field count compared with the constant 0, B: has_binary() / binary.is_some()
+        from ..cfg import BoolReach
+        from ..facts import const_int, op_const
+        b = bs[0]
+        lens = {t["dest"]["l"] for bb, t in b.calls() if any(n in (F + "fields_len", IT + "count", EX + "len") for n in callee_names(t))}
+
+        def atom_of(kind, bb, obj):
+            if kind == "call":
+                ns = callee_names(obj)
+                if F + "has_binary" in ns:
+                    return ("B", False)
+                if any(n.endswith("Option::<T>::is_some") or n.endswith("Option::is_some") for n in ns) and obj["args"] and \
+                        ref_field_of_local(b, op_local(obj["args"][0])) == "binary":
+                    return ("B", False)
+                if any(n.endswith("Option::<T>::is_none") or n.endswith("Option::is_none") for n in ns) and obj["args"] and \
+                        ref_field_of_local(b, op_local(obj["args"][0])) == "binary":
+                    return ("B", True)
+                return None
+            rv = obj["rv"]
+            if rv["op"] not in ("Eq", "Ne"):
+                return None
+            for x, y in ((rv["a"], rv["b"]), (rv["b"], rv["a"])):
+                if op_local(x) in lens and const_int(op_const(y)) == 0:
+                    return ("E", rv["op"] == "Ne")
+            return None
+        br = BoolReach(b, atom_of)
+        table = {(e, bn): br.return_values(0, {"E": e, "B": bn}) for e in (False, True) for bn in (False, True)}
+        want = {(e, bn): {e and not bn} for e in (False, True) for bn in (False, True)}
+        rep.check(table == want, rule, cfg + "/is_empty = no fields remain and no blob", b.loc(b.span),
+                  "Frame::is_empty is not `fields_len() == 0 && !has_binary()`: under (no fields remain, has blob) = %s it returns %s (None = not decided "
+                  "by those two facts, e.g. the count is compared with another constant)" %
+                  (sorted(k for k in table if table[k] != want[k]), [sorted(map(str, table[k])) for k in sorted(table) if table[k] != want[k]]),
+                  detail={"truth_table": {str(k): sorted(map(str, v)) for k, v in table.items()}})
 
 
 def run(rep, progs, tier):
